@@ -56,7 +56,7 @@ theorem infoText_noIgnore {endRe : Re} (ls : List InfoLine) (hok : ∀ l ∈ ls,
 
 theorem extractRawWith_eq (endRe : Re) (t : Text) (h : findSub Generated.ignoreStart t = none) :
     extractRawWith endRe t =
-      { lic := dedup (findSpdxTagWith endRe Generated.licenseTag t)
+      { lic := (dedup (findSpdxTagWith endRe Generated.licenseTag t)).filter (fun v => !v.isEmpty)
         cpr := dedup (cprLinesWith endRe t)
         con := dedup (findSpdxTagWith endRe Generated.contributorTag t) } := by
   unfold extractRawWith cprLinesWith
